@@ -53,7 +53,7 @@ type runner struct {
 
 	// ---- oracle (model-free): the mapping, and which paths a recorded finding may affect
 	mp        map[string]val
-	snap      map[string]val  // the mapping as of the last successful Store (what a reload must show)
+	snap      map[string]val // the mapping as of the last successful Store (what a reload must show)
 	refsEver  map[string]map[byte]bool
 	metasEver map[string]map[string]bool
 	dropped   map[string]bool // keys that extended a removed path
@@ -493,7 +493,7 @@ func genMeta(r *core.Rand, allowEmpty bool) string {
 func (prop) Gen(r *core.Rand, tier string) []core.Case {
 	n := 250
 	if tier == "thorough" {
-		n = 6000
+		n = 2000
 	}
 	a, ab, x, y, abc, ac := hexs("a"), hexs("ab"), hexs("x"), hexs("y"), hexs("abc"), hexs("ac")
 	cs := []core.Case{
